@@ -690,7 +690,6 @@ func (dr *dirRepo) gc() error {
 				filepath.Join(dr.path, blobsDir),
 				filepath.Join(dr.path, indexFile),
 				filepath.Join(dr.path, layoutFile),
-				filepath.Join(dr.path),
 			} {
 				err := os.Remove(dir)
 				if err != nil && !errors.Is(err, fs.ErrNotExist) {
@@ -702,7 +701,10 @@ func (dr *dirRepo) gc() error {
 			return errors.Join(errs...)
 		}()
 		if errDir == nil {
+			// the repo no longer exists once the layout files are gone,
+			// removing the directory itself fails when it contains nested repositories
 			dr.exists = false
+			_ = os.Remove(dr.path)
 		}
 	}
 	dr.log.Debug("finished GC", "repo", dr.name, "err", errGC)
